@@ -424,6 +424,10 @@ func (b Browse) ServeHTTP(w http.ResponseWriter, r *http.Request) (int, error) {
 		u.Path = "/"
 	}
 	if u.Path[len(u.Path)-1] != '/' {
+		for strings.HasPrefix(u.Path, "//") {
+			// prevent path-based open redirects
+			u.Path = strings.TrimPrefix(u.Path, "/")
+		}
 		u.Path += "/"
 		http.Redirect(w, r, u.String(), http.StatusMovedPermanently)
 		return http.StatusMovedPermanently, nil
